@@ -145,6 +145,9 @@ def gen_cases(tier, seed):
             sp['plan']['faults'].insert(0, dict(first, tag='FAULT-first'))
         cases.append(sp)
     rng.shuffle(cases)
+    from ..gen import sprinkle
+
+    sprinkle(cases, seed)
     return cases
 
 
